@@ -48,6 +48,8 @@ def jobs(tier, seed):
             hists.append({"pool": pool, "hist": [["mk", "P", "partial_early", t], ["mk", "Q", "diff_early", t], ["q", "P", "q"], ["q", "Q", "p"]]})
             hists.append({"pool": pool, "hist": [["mk", "P", "partial", t], ["q", "P", "q"], ["qasexp", "P"], ["q", "P", "p"]]})
             hists.append({"pool": pool, "hist": [["mk", "P", "diff_early", t], ["qat", "P", "q"]]})
+            hists.append({"pool": pool, "hist": [["mk", "P", "diff", t], ["q", "P", "q"]]})
+            hists.append({"pool": pool, "hist": [["mk", "P", "diff", t], ["qasexp", "P"]]})
             hists.append({"pool": pool, "hist": [["mk", "P", "diff_early", t], ["mk", "Q", "diff", t], ["qat", "P", "q"], ["qat", "Q", "q"], ["qat", "P", "p"]]})
             hists.append({"pool": pool, "hist": [["norm", t], ["asexp", t]], "keep": ["asexp", t]})
             hists.append({"pool": pool, "hist": [["asexp", t], ["norm", t], ["at", t, "q"]], "keep": ["norm", t]})
